@@ -367,6 +367,11 @@ def clone_checks(ctx):
         world = World()
         root = build(world, rand_spec(rng, 3))
         nodes = sorted(world.obj)
+        if rng.random() < 0.4:
+            # attributes without a value (None is not the empty string)
+            from suds.sax.attribute import Attribute
+            for m in rng.sample(nodes, min(len(nodes), 2)):
+                world.obj[m].append(Attribute(rng.choice(["nv", "p:nv"])))
         n = rng.choice(nodes)
         e = world.obj[n]
         before = root.plain()
@@ -502,6 +507,32 @@ def attribute_histories(ctx):
     judge(ctx, runs)
 
 
+def doctor_rule_reused(ctx):
+    """One ImportDoctor rule applied to several schemas (its normal use: a doctor sees every schema of a WSDL): every
+    schema gets its own import element, and keeps it."""
+    import suds.xsd.doctor as doctor
+    from suds.sax.parser import Parser
+    XS = "http://www.w3.org/2001/XMLSchema"
+    trees = [Parser().parse(string=('<xs:schema xmlns:xs="%s" targetNamespace="urn:t%d"><xs:element name="e%d" '
+                                    'type="xs:string"/></xs:schema>' % (XS, i, i)).encode()).root() for i in range(3)]
+    for with_location in (False, True):
+        rule = doctor.Import("urn:want", "http://x.invalid/want.xsd") if with_location else doctor.Import("urn:want")
+        fresh = [t.clone() for t in trees]
+        for t in fresh:
+            rule.apply(t)
+        meta = {"stream": "doctor-rule-reused", "location": with_location}
+        ctx.case(common.canon(meta), True)
+        facts = []
+        for i, t in enumerate(fresh):
+            imps = [c for c in t.children if c.name == "import"]
+            facts.append([len(imps), all(c.parent is t for c in t.children), len(t.children),
+                          imps[0].get("namespace") if imps else None])
+        ids = [id(c) for t in fresh for c in t.children if c.name == "import"]
+        if facts != [[1, True, 2, "urn:want"]] * 3 or len(set(ids)) != 3:
+            ctx.fail("one doctor rule applied to several schemas does not give each its own import element", meta,
+                     [facts, len(set(ids))], [[[1, True, 2, "urn:want"]] * 3, 3])
+
+
 def kf_clone_attr_ns(f, k):
     """D21: the clone differs only in the namespace of attributes whose prefix is bound above the cloned node."""
     return f.get("what", "").startswith("clone is not equal") and f.get("masked_equal") is True
@@ -574,6 +605,7 @@ def run(ctx):
     clone_checks(ctx)
     equality_and_doctor(ctx)
     attribute_histories(ctx)
+    doctor_rule_reused(ctx)
     if runs:
         ctx.sample({"forest": runs[0]["forest"], "ops": runs[0]["ops"][:4]})
     ctx.sample({"forest": [FIXED], "ops": [{"op": "detach", "n": 3}, {"op": "prune", "n": 1}]})
